@@ -93,6 +93,8 @@ def do_call(c):
             return {'k': 'ok', 'v': out}
         raise ValueError(op)
     except FailedParse as e:
+        if 'recursion limit exceeded' in str(getattr(e, 'msg', '')):
+            return {'k': 'exc', 'cls': 'RecursionError'}
         return {'k': 'fail', 'cls': type(e).__name__}
     except ParseException as e:
         return {'k': 'err', 'cls': type(e).__name__}
